@@ -342,9 +342,15 @@ def check_apply(rng):
             digs = [0, 0, 0]
     R = np.array(rot, dtype=float).reshape(3, 3)
     # operations are also built from integer arrays (a rotation part IS an integer matrix)
-    how = rng.choice(["float", "float", "int"])
+    how = rng.choice(["float", "float", "int", "fortran", "transposed-view", "nested-lists"])
     Rin = R if how == "float" else np.array(rot, dtype=int).reshape(3, 3)
+    if how == "fortran":
+        Rin = np.asfortranarray(R)                     # same matrix, column-major memory
+    elif how == "transposed-view":
+        Rin = np.ascontiguousarray(R.T).T              # same matrix again, as a transposed view
     s = S(Rin, np.array(digs) / 12)
+    if int(s.integer_code) != ref_encode(rot, digs) or not (s == S(R.copy(), np.array(digs) / 12)):
+        return f"operation {ref_str(rot, digs)} built from a rotation held as a {how} array has code {int(s.integer_code)}, expected {ref_encode(rot, digs)}", (rot, digs)
     pts = np.array([[rng.uniform(-2, 2) for _ in range(3)] for _ in range(rng.randint(1, 5))])
     a3 = s.apply(pts)
     a4 = s.apply(np.hstack([pts, np.ones((len(pts), 1))]))
@@ -373,6 +379,13 @@ def check_apply(rng):
     # every form of the SAME stored operation gives the same points: apply on 3-vectors, the 4x4 matrix on homogeneous vectors, the
     # Cartesian form built from rotation and translation — also for the lattice-shifted twin
     hom = np.hstack([pts, np.ones((len(pts), 1))])
+    # general homogeneous coordinates (w = 0: a direction, translated by nothing; w = 2: the point x/2): apply IS multiplication by the 4x4 matrix
+    gen4 = np.hstack([pts, np.array([[rng.choice([0.0, 2.0, -1.0, 0.5])] for _ in range(len(pts))])])
+    g_apply = s.apply(gen4)
+    g_mat = (np.asarray(s.seitz_matrix) @ gen4.T).T
+    if not np.allclose(g_apply, g_mat, rtol=0, atol=1e-9):
+        return (f"operation {ref_str(rot, digs)}: apply() on homogeneous vectors with w = {gen4[:, 3].tolist()} differs from the 4x4 matrix product by "
+                f"{np.abs(g_apply - g_mat).max():.3g}"), (rot, digs)
     for name, op, x3 in (("operation", s, a3), ("its lattice-shifted twin", s2, b3)):
         m4 = (np.asarray(op.seitz_matrix) @ hom.T).T
         if not np.allclose(m4[:, :3], x3, rtol=0, atol=1e-9) or not np.allclose(m4[:, 3], 1.0, rtol=0, atol=1e-12):
